@@ -312,11 +312,17 @@ impl VisitMut for ImplItemResolver {
         });
 
         let syn::Signature {
-            ident, variadic, ..
+            asyncness,
+            ident,
+            variadic,
+            ..
         } = &node.sig;
 
+        // NOTE: The future returned by an `async fn` of the helper trait is awaited
+        let await_ = asyncness.map(|_| quote!(.await));
+
         node.block = parse_quote!({
-            #self_as_helper_trait::#ident(#(#inputs,)* #variadic)
+            #self_as_helper_trait::#ident(#(#inputs,)* #variadic) #await_
         });
     }
 }
